@@ -30,6 +30,10 @@ Definition issue_bound_ok (size : N) (n_cache n_fifo : N) : bool :=
 Definition refetch_window_ok (min_delay refetch bo_max slack now next : N) : bool :=
   (now + min_delay <=? next) && (next <=? now + N.max refetch bo_max + slack).
 
+(* KNOWN FINDING class C06-backoff-outlasts-threshold (known_findings/C06.json): the
+   configuration's backoff ceiling exceeds its expiry threshold (the validator accepts it) *)
+Definition class_backoff (c : cfg) : bool := c_thresh c <? c_bo_max c.
+
 (** ** C07 *)
 (* "uses the interface": the path's interface list, as [src egress; in; eg; ...; dst ingress] *)
 Fixpoint egresses (l : list iface) : list iface :=
@@ -60,3 +64,31 @@ Definition affected (i : issue) (p : path) : bool :=
   | IFirstHop ia ifid => match p_first p with Some f => iface_eqb f (ia, ifid) | None => false end
   | IOther => false
   end.
+
+(** well-formed interface lists *)
+(* [src egress; in1; eg1; in2; eg2; ...; dst ingress]: ingress and egress of a transit hop belong
+   to one AS, and no AS is visited twice *)
+Fixpoint wf_tail (seen : list N) (l : list iface) : bool :=
+  match l with
+  | [] => false
+  | [i] => negb (memN (fst i) seen)
+  | i :: e :: rest => (fst i =? fst e) && negb (memN (fst i) seen) && wf_tail (fst i :: seen) rest
+  end.
+Definition wf_ifs (src : N) (l : list iface) : bool :=
+  match l with e0 :: rest => (fst e0 =? src) && wf_tail [src] rest | [] => false end.
+Definition wf_path (p : path) : bool :=
+  match p_ifs p with Some l => wf_ifs (p_src p) l | None => false end.
+
+
+(* what the code steers by: an interface-down report is about the EGRESS interface of a hop *)
+Definition steers (i : issue) (p : path) : bool :=
+  match i with
+  | IInterfaceDown ia ifid => uses_egress p ia ifid
+  | IConnectivityDown ia ing eg => uses_transit p ia ing eg
+  | IFirstHop ia ifid => match p_first p with Some f => iface_eqb f (ia, ifid) | None => false end
+  | IOther => false
+  end.
+
+(** KNOWN FINDING classes (known_findings/C07.json) *)
+(* C07-ingress-not-matched: the path uses the reported interface, but as an ingress *)
+Definition class_ingress (i : issue) (p : path) : bool := affected i p && negb (steers i p).
